@@ -41,6 +41,20 @@ def worker_env(hashseed, malloc_perturb=None):
     return env
 
 
+def sweep_stale(max_age_s=6 * 3600):
+    """Remove scratch directories left behind by runs that were killed (best effort)."""
+    base = tempfile.gettempdir()
+    now = time.time()
+    for name in os.listdir(base):
+        if name.startswith(("ioosqc-run-", "ioosqc-sim-", "ioosqc-replay-", "ioosqc-selftest-", "ioosqc-mut-", "ioosqc-warm-")):
+            path = os.path.join(base, name)
+            try:
+                if now - os.path.getmtime(path) > max_age_s:
+                    shutil.rmtree(path, ignore_errors=True)
+            except OSError:
+                pass
+
+
 def launch(job, workdir, name, hashseed, malloc_perturb=None):
     job = dict(job)
     job["out"] = os.path.join(workdir, f"{name}.out.json")
@@ -48,7 +62,9 @@ def launch(job, workdir, name, hashseed, malloc_perturb=None):
     with open(jp, "w") as f:
         json.dump(job, f)
     log = open(os.path.join(workdir, f"{name}.log"), "w")
-    p = subprocess.Popen([PY, "-m", "sim.worker", jp], cwd=VERIF, env=worker_env(hashseed, malloc_perturb), stdout=log, stderr=subprocess.STDOUT)
+    env = worker_env(hashseed, malloc_perturb)
+    env["TMPDIR"] = workdir  # the workers' scratch directories live (and die) inside the run directory
+    p = subprocess.Popen([PY, "-m", "sim.worker", jp], cwd=VERIF, env=env, stdout=log, stderr=subprocess.STDOUT)
     return {"name": name, "proc": p, "job": job, "log": log, "hashseed": hashseed, "malloc_perturb": malloc_perturb}
 
 
@@ -118,6 +134,7 @@ def run_check(prop, tier, seed, out=sys.stdout):
         budget["runs"] = int(os.environ["VERIF_RUNS"])
     if os.environ.get("VERIF_SECONDS"):
         budget["seconds"] = float(os.environ["VERIF_SECONDS"])
+    sweep_stale()
     workdir = tempfile.mkdtemp(prefix="ioosqc-run-")
     known = Known.load()
     ncases = 0
